@@ -7,6 +7,10 @@ for use while something else is patching /repo).
 """
 import concurrent.futures, glob, json, os, shutil, subprocess, sys, tempfile
 PROPS = ['C%02d' % i for i in range(1, 21)]
+try:
+    UNDECIDED = {k: v for k, v in json.load(open('/verif/seeded/UNDECIDED.json')).items() if not k.startswith('_')}
+except Exception:
+    UNDECIDED = {}
 
 
 def scratch(patch):
@@ -79,9 +83,14 @@ def main():
                 print('%-9s %-8s %s (own check exit=%d%s)' % (kind, name, 'detected' if ok else 'MISSED', rc,
                       ', also: ' + ' '.join('%s=%d' % (k, v[0]) for k, v in out.items() if k != own) if len(out) > (1 if own in out else 0) else ''))
             else:
-                ok = not out
+                # refactorings that remove an anchored function: the listed checks answer exit 2 (undecided) - expected, not an alarm
+                exp = set(UNDECIDED.get(name, []))
+                und = {k for k, v in out.items() if v[0] == 2 and k in exp}
+                ok = not (set(out) - und)
                 bad += not ok
-                print('%-9s %-8s %s' % (kind, name, 'silent' if ok else 'ALARM ' + ' '.join('%s=%d' % (k, v[0]) for k, v in sorted(out.items()))))
+                word = 'silent' if not out else ('undecided ' + ' '.join(sorted(und)) + ' (listed in seeded/UNDECIDED.json)') if ok else \
+                    'ALARM ' + ' '.join('%s=%d' % (k, v[0]) for k, v in sorted(out.items()))
+                print('%-9s %-8s %s' % (kind, name, word))
                 if verbose and out:
                     for k, v in sorted(out.items()):
                         for l in v[1]:
